@@ -73,10 +73,11 @@ def detect(d, tier='quick', check=None):
         if rc != 0:
             print('patch does not apply', out[-300:])
             return None
-        env = dict(os.environ, TORCHTREE_REPO=wt)
+        env = dict(os.environ, TORCHTREE_REPO=wt, VERIF_EVIDENCE_DIR=wt + '.ev')
         rc, out = sh([os.path.join(VERIF, 'check'), pid, '--tier', tier], cwd=VERIF, timeout=10800, env=env)
     finally:
         sh(['git', '-C', REPO, 'worktree', 'remove', '--force', wt])
+        sh(['rm', '-rf', wt + '.ev'])
     viol = [l for l in out.splitlines() if l.startswith('VIOLATION')]
     what = [l.strip()[:300] for l in out.splitlines() if l.strip().startswith('what:')][:2]
     outcome = 'DETECTED' if rc == 1 and viol else ('INCONCLUSIVE' if rc == 2 else ('MISSED' if rc == 0 else f'rc={rc}'))
@@ -112,7 +113,7 @@ if __name__ == '__main__':
         tier = args[args.index('--tier') + 1]
     if '--check' in args:
         check = args[args.index('--check') + 1]
-    pos = [a for k, a in enumerate(args) if not a.startswith('--') and (k == 0 or args[k - 1] not in ('--tier', '--check'))]
+    pos = [a for k, a in enumerate(args) if not a.startswith('--') and (k == 0 or args[k - 1] not in ('--tier', '--check', '--jobs'))]
     if cmd == 'verify':
         sys.exit(0 if verify(pos[0]) else 1)
     elif cmd == 'detect':
@@ -122,7 +123,13 @@ if __name__ == '__main__':
         sys.exit(0 if verify(d) else 1)
     elif cmd == 'all':
         base = os.path.join(VERIF, 'seeded')
-        for name in sorted(os.listdir(base)):
-            dd = os.path.join(base, name)
-            if os.path.isdir(dd) and os.path.exists(os.path.join(dd, 'patch.diff')):
-                detect(dd, tier)
+        jobs = int(args[args.index('--jobs') + 1]) if '--jobs' in args else 1
+        dirs = [os.path.join(base, name) for name in sorted(os.listdir(base))
+                if os.path.exists(os.path.join(base, name, 'patch.diff')) and (not pos or any(name.startswith(p) for p in pos))]
+        if jobs <= 1:
+            for dd in dirs:
+                detect(dd, tier, check)
+        else:
+            from concurrent.futures import ThreadPoolExecutor
+            with ThreadPoolExecutor(jobs) as ex:
+                list(ex.map(lambda dd: detect(dd, tier, check), dirs))
